@@ -16,7 +16,7 @@ type ctx struct {
 	U, LU  []int64
 	ids    []int64 // IDs mentioned so far (query set of the per-step comparison)
 	inIDs  map[int64]bool
-	soft   *vk.Failure // first failure of a kind after which the history can go on
+	soft   map[string]*vk.Failure // first failure per known-defect key after which the history goes on
 	step   int
 	opDesc string
 	used   [nOps]bool
@@ -29,10 +29,33 @@ func (x *ctx) failf(key, format string, args ...any) *vk.Failure {
 	return vk.Failf(key, "%s step %d (%s): %s", x.m.ki.name, x.step, x.opDesc, fmt.Sprintf(format, args...))
 }
 
-func (x *ctx) softFail(f *vk.Failure) {
-	if x.soft == nil {
-		x.soft = f
+// softf records a failure that matches a precisely characterised defect which
+// leaves container and model in step, so that the history can go on behind it.
+func (x *ctx) softf(key, format string, args ...any) {
+	if x.soft[key] == nil {
+		x.soft[key] = x.failf(key, format, args...)
 	}
+}
+
+// softOrder: the rarest defect first, so that the ubiquitous ones do not hide it.
+var softOrder = []string{
+	"matrix-setedge-outside-modifies-node",
+	"matrix-setedge-outside-runtime-fault",
+	"removeline-never-joined-runtime-fault",
+	"ordered-iter-slice-repeats-current-item",
+	"ordered-iter-len-counts-current-item",
+}
+
+func (x *ctx) softResult() *vk.Failure {
+	for _, k := range softOrder {
+		if f := x.soft[k]; f != nil {
+			return f
+		}
+	}
+	for _, f := range x.soft {
+		return f
+	}
+	return nil
 }
 
 func (x *ctx) touch(ids ...int64) {
@@ -258,8 +281,8 @@ func (x *ctx) apply(op Op) *vk.Failure {
 		case r.Outcome == vk.RuntimeFault && m.has(a) && m.has(b) && !m.ever[m.key(a, b)]:
 			// Known defect: the per-pair line ID set does not exist yet. The
 			// graph itself is not modified, so the history continues.
-			x.softFail(x.failf("removeline-never-joined-runtime-fault",
-				"RemoveLine(%d,%d,%d) with both nodes present and no line ever set between them is documented as a no-op but ends in a runtime fault: %s", a, b, lid, r.Text))
+			x.softf("removeline-never-joined-runtime-fault",
+				"RemoveLine(%d,%d,%d) with both nodes present and no line ever set between them is documented as a no-op but ends in a runtime fault: %s", a, b, lid, r.Text)
 			return nil
 		case r.Outcome != vk.Returned:
 			return x.failf("removeline", "valid call ended in %v: %s", r.Outcome, r.Text)
@@ -312,7 +335,7 @@ func (x *ctx) applyDenseSet(op Op, a, b int64, w float64, from, to pn) *vk.Failu
 		do = func() { s.wea.SetWeightedEdge(pwe{from, to, w, op.T}) }
 	}
 	if a != b && m.has(a) && m.has(b) {
-		if f := x.call("dense-setedge", false, do); f != nil {
+		if f := x.call("matrix-setedge", false, do); f != nil {
 			return f
 		}
 		m.denseSet(a, b, w, int32(from.tag), int32(to.tag))
@@ -321,7 +344,7 @@ func (x *ctx) applyDenseSet(op Op, a, b int64, w float64, from, to pn) *vk.Failu
 	r := vk.Call(do)
 	switch r.Outcome {
 	case vk.Returned:
-		return x.failf("dense-setedge-invalid-returned", "self loop or end outside the matrix: documented panic did not happen")
+		return x.failf("matrix-setedge-invalid-returned", "self loop or end outside the matrix: documented panic did not happen")
 	case vk.PackagePanic:
 		return nil
 	}
@@ -330,14 +353,14 @@ func (x *ctx) applyDenseSet(op Op, a, b int64, w float64, from, to pn) *vk.Failu
 	// already been replaced, i.e. the failed call modified the graph.
 	if a != b && m.has(a) && m.tags != nil {
 		if _, tag := nodeOf(s.g.Node(a)); tag != m.tags[a] {
-			x.softFail(x.failf("dense-setedge-outside-modifies-node",
-				"SetEdge with the to end %d outside the matrix panics (%s) after having replaced the node value of the from end %d (tag %d -> %d): a failed call must leave the graph unchanged", b, r.Text, a, m.tags[a], tag))
+			x.softf("matrix-setedge-outside-modifies-node",
+				"SetEdge with the to end %d outside the matrix panics (%s) after having replaced the node value of the from end %d (tag %d -> %d): a failed call must leave the graph unchanged", b, r.Text, a, m.tags[a], tag)
 			m.tags[a] = tag // follow the container so that the history can go on
 			return nil
 		}
 	}
-	x.softFail(x.failf("dense-setedge-outside-runtime-fault",
-		"SetEdge with an end outside the matrix: documented panic is a runtime fault instead of a package panic: %s", r.Text))
+	x.softf("matrix-setedge-outside-runtime-fault",
+		"SetEdge with an end outside the matrix: documented panic is a runtime fault instead of a package panic: %s", r.Text)
 	return nil
 }
 
@@ -391,23 +414,23 @@ func (x *ctx) checkMultiEdge(what string, e graph.Edge, u, v int64, canon bool) 
 	switch e := e.(type) {
 	case multi.Edge:
 		if m.ki.weighted {
-			return x.failf("multi-edge-type", "%s is a multi.Edge in a weighted multigraph", what)
+			return x.failf("aggregated-edge-type", "%s is a multi.Edge in a weighted multigraph", what)
 		}
-		return x.checkIter(linesView(what+".Lines", e.Lines, canon), x.wantLines(u, v, canon))
+		return x.checkIter(linesView(what+".Lines", e.Lines, canon).with(u, v), x.wantLines(u, v, canon))
 	case multi.WeightedEdge:
 		if !m.ki.weighted {
-			return x.failf("multi-edge-type", "%s is a multi.WeightedEdge in an unweighted multigraph", what)
+			return x.failf("aggregated-edge-type", "%s is a multi.WeightedEdge in an unweighted multigraph", what)
 		}
 		if e.WeightedLines == nil {
 			return x.failf("iter-nil", "%s has nil WeightedLines", what)
 		}
 		e.WeightedLines.Reset()
 		if got, want := e.Weight(), m.aggregate(m.lines(u, v)); !same(got, want) {
-			return x.failf("multi-edge-weight", "%s.Weight()=%v, model %v", what, got, want)
+			return x.failf("aggregated-edge-weight", "%s.Weight()=%v, model %v", what, got, want)
 		}
-		return x.checkIter(wlinesView(what+".WeightedLines", e.WeightedLines, canon), x.wantLines(u, v, canon))
+		return x.checkIter(wlinesView(what+".WeightedLines", e.WeightedLines, canon).with(u, v), x.wantLines(u, v, canon))
 	}
-	return x.failf("multi-edge-type", "%s has type %T; documented: multi.Edge / multi.WeightedEdge", what, e)
+	return x.failf("aggregated-edge-type", "%s has type %T; documented: multi.Edge / multi.WeightedEdge", what, e)
 }
 
 func (x *ctx) compare(ids []int64) *vk.Failure {
@@ -474,11 +497,11 @@ func (x *ctx) compare(ids []int64) *vk.Failure {
 
 	// From, To
 	for _, u := range ids {
-		if f := x.checkIter(nodesView(fmt.Sprintf("From(%d)", u), s.g.From(u)), x.wantNodes(m.from(u))); f != nil {
+		if f := x.checkIter(nodesView("From", s.g.From(u)).with(u), x.wantNodes(m.from(u))); f != nil {
 			return f
 		}
 		if s.dir != nil {
-			if f := x.checkIter(nodesView(fmt.Sprintf("To(%d)", u), s.dir.To(u)), x.wantNodes(m.to(u))); f != nil {
+			if f := x.checkIter(nodesView("To", s.dir.To(u)).with(u), x.wantNodes(m.to(u))); f != nil {
 				return f
 			}
 		}
@@ -508,7 +531,7 @@ func (x *ctx) compare(ids []int64) *vk.Failure {
 					return x.failf("edge-value", "%s(%d,%d) = %s, model %s", what, u, v, fmtItems([]item{got}), fmtItems([]item{want}))
 				}
 				if ki.multi {
-					return x.checkMultiEdge(fmt.Sprintf("%s(%d,%d)", what, u, v), e, u, v, false)
+					return x.checkMultiEdge(what, e, u, v, false)
 				}
 				return nil
 			}
@@ -548,21 +571,21 @@ func (x *ctx) compare(ids []int64) *vk.Failure {
 				}
 			}
 			if s.mg != nil {
-				if f := x.checkIter(linesView(fmt.Sprintf("Lines(%d,%d)", u, v), s.mg.Lines(u, v), false), x.wantLines(u, v, false)); f != nil {
+				if f := x.checkIter(linesView("Lines", s.mg.Lines(u, v), false).with(u, v), x.wantLines(u, v, false)); f != nil {
 					return f
 				}
 				if s.umg != nil {
-					if f := x.checkIter(linesView(fmt.Sprintf("LinesBetween(%d,%d)", u, v), s.umg.LinesBetween(u, v), false), x.wantLines(u, v, false)); f != nil {
+					if f := x.checkIter(linesView("LinesBetween", s.umg.LinesBetween(u, v), false).with(u, v), x.wantLines(u, v, false)); f != nil {
 						return f
 					}
 				}
 			}
 			if s.wmg != nil {
-				if f := x.checkIter(wlinesView(fmt.Sprintf("WeightedLines(%d,%d)", u, v), s.wmg.WeightedLines(u, v), false), x.wantLines(u, v, false)); f != nil {
+				if f := x.checkIter(wlinesView("WeightedLines", s.wmg.WeightedLines(u, v), false).with(u, v), x.wantLines(u, v, false)); f != nil {
 					return f
 				}
 				if s.wumg != nil {
-					if f := x.checkIter(wlinesView(fmt.Sprintf("WeightedLinesBetween(%d,%d)", u, v), s.wumg.WeightedLinesBetween(u, v), false), x.wantLines(u, v, false)); f != nil {
+					if f := x.checkIter(wlinesView("WeightedLinesBetween", s.wumg.WeightedLinesBetween(u, v), false).with(u, v), x.wantLines(u, v, false)); f != nil {
 						return f
 					}
 				}
